@@ -4,6 +4,20 @@ claimed / not_applicable partition is always consistent)."""
 import json
 
 CLAIMS = {
+ 'C12': dict(
+   text='PARTIAL (frame structure): in each of the 27 one-to-one iterators every path through the data loop yields exactly '
+        'one row in loop order; in the operators documented to pad, every header-indexed access to a source row is inside '
+        'try/except IndexError or under a length guard and the handler delivers a padded row; columns()/facetcolumns pair '
+        'fields and cells with izip_longest(fillvalue=missing); the field-resolution ladder of asindices is evaluated for '
+        'all valuations (in-range index first, names consumed left to right, else FieldSelectionError); cells without '
+        'converter and rows with false `where` pass through unchanged; `missing` is forwarded unchanged at every call '
+        'between callables that accept it and from each view to its iterator.',
+   ref='DESIGN.md §4 C12',
+   note='does NOT compute cell values or compare with a cell-by-cell reference; the lists of one-to-one and '
+        'documented-padding operators are frozen from the property statement; negative / out-of-range insertion indices '
+        'are not analysed',
+   technique='per-path yield counting, try/except-IndexError dominance on typestate row-use events, decision-table '
+             'extraction of asindices, argument forwarding check'),
  'C06': dict(
    text='PARTIAL (necessary conditions): the inputs of each merge are squared up and sorted by exactly the key the merge '
         'compares unless presorted; keys_from_args is evaluated for all eight combinations of given / omitted key, lkey, '
